@@ -229,6 +229,8 @@ def check(model, rep):
     check_tables(model, rep, sx.tables, R='C06.conv.table')
     check_to(model, rep, sx, sx.tables, R='C06.conv.to')
     check_mirror(model, rep, sx, R='C06.conv.mirror')
+    from checks.c05 import check_ctor_stores
+    check_ctor_stores(model, rep, sx, R='C06.conv.ctor')      # the operators read the private copies the constructors store
     rep.require('C06.kind', 700, 'one instance per triple')
     rep.exhaustive = True
     rep.analysed.update({'kinds': kinds, 'triples': triples, 'accepted': len(accepted), 'rejected': rejected,
